@@ -27,6 +27,9 @@ type c07case struct {
 	Prefix  []decision `json:"prefix"`
 	Restart int        `json:"restart"` // -1 none, otherwise restart B before prefix step i (len(prefix) = after the prefix)
 	Direct  bool       `json:"direct"`  // deliver synchronously (deterministic) instead of via the inbox
+	// KeepInFlight: what the old instance of B had sent and the network still holds at the moment of the restart
+	// stays in the network (packets outlive the process that sent them) instead of vanishing with it
+	KeepInFlight bool `json:"keep_in_flight,omitempty"`
 }
 
 func (c c07case) String() string {
@@ -34,7 +37,11 @@ func (c c07case) String() string {
 	for _, d := range c.Prefix {
 		ps = append(ps, fmt.Sprintf("%s[%d]", d.Act, d.Idx))
 	}
-	return fmt.Sprintf("first=%s backoff=%dms restart=%d prefix=%s", c.First, c.Backoff, c.Restart, strings.Join(ps, ","))
+	keep := ""
+	if c.KeepInFlight {
+		keep = "(old instance's packets stay in flight)"
+	}
+	return fmt.Sprintf("first=%s backoff=%dms restart=%d%s prefix=%s", c.First, c.Backoff, c.Restart, keep, strings.Join(ps, ","))
 }
 
 type c07result struct {
@@ -132,7 +139,7 @@ func runC07(c c07case) (res c07result) {
 		nt.mu.Lock()
 		var keep []wireMsg
 		for _, m := range nt.held {
-			if m.from != old && m.to != old {
+			if (m.from != old && m.to != old) || (c.KeepInFlight && m.from == old && m.to == a) {
 				keep = append(keep, m)
 			}
 		}
@@ -157,7 +164,11 @@ func runC07(c c07case) (res c07result) {
 		}
 		nt.mu.Unlock()
 		// whoever was waiting on the old instance gave up with it; the new instance has something to say
+		before := nt.heldLen()
 		startSend(b, "after-restart")
+		// the new instance's hello is on the wire (signed) before anything else happens, so that what is delivered
+		// next really reaches the survivor after the new instance spoke
+		waitUntil(backoff, func() bool { return nt.heldLen() > before })
 	}
 	handle := func(m wireMsg) {
 		if c.Direct {
@@ -254,6 +265,11 @@ func runC07(c c07case) (res c07result) {
 			// The known finding class is recognised by the state of the blocked side at the time of the failure as
 			// well: on a busy machine the survivor may process the old instance's RespHello (and emit InitDone) only
 			// after the restart decision was taken, which is the same history in another interleaving.
+			if keyIndex(a.ch.RemoteKey()) >= 0 {
+				// the recorded finding is about a survivor that never completed its handshake with the old instance;
+				// a survivor that did (the old instance's last message was still in flight and arrived) is another history
+				res.knownKey = ""
+			}
 			if restarted && p.n == a && keyIndex(a.ch.RemoteKey()) < 0 {
 				a.mu.Lock()
 				for _, m := range a.emitted {
@@ -297,7 +313,7 @@ func runC07(c c07case) (res c07result) {
 
 func TestC07Converge(t *testing.T) {
 	const sub = "C07.converge_after_faults"
-	ev.Rule(sub, "rapid: two real channels on a harness-owned wire that holds every message; who sends first in {A, B, both}; handshake backoff 10-40 ms; an adversarial prefix of up to 6 decisions, each {deliver, deliver-and-keep-a-copy, drop} applied to a chosen held message or one retransmission interval passing; optional restart of B (fresh channel, same key) before a generated step; then the wire switches to prompt in-order delivery. Oracle: every pending Send returns nil within max(50 x backoff, 2 s) of the switch (reject-after is 10x that), then a tagged message flows each way. non-trivial = prefix with a drop, duplicate, out-of-order delivery, data overtaking the last handshake message, simultaneous initiation or a restart; distinct by case description")
+	ev.Rule(sub, "rapid: two real channels on a harness-owned wire that holds every message; who sends first in {A, B, both}; handshake backoff 10-40 ms; an adversarial prefix of up to 6 decisions, each {deliver, deliver-and-keep-a-copy, drop} applied to a chosen held message or one retransmission interval passing; optional restart of B (fresh channel, same key) before a generated step, the old instance's packets either vanishing with it or staying in flight; then the wire switches to prompt in-order delivery. Oracle: every pending Send returns nil within max(50 x backoff, 2 s) of the switch (reject-after is 10x that), then a tagged message flows each way. non-trivial = prefix with a drop, duplicate, out-of-order delivery, data overtaking the last handshake message, simultaneous initiation or a restart; distinct by case description")
 	var replay c07case
 	if ev.ReplayCase(sub, &replay) {
 		if r := runC07(replay); r.problem != "" && !(r.knownKey != "" && ev.Known(sub, "C07", r.knownKey)) {
@@ -324,6 +340,7 @@ func TestC07Converge(t *testing.T) {
 		}
 		if rapid.IntRange(0, 3).Draw(t, "withRestart") == 0 {
 			c.Restart = rapid.IntRange(0, len(c.Prefix)).Draw(t, "restartAt")
+			c.KeepInFlight = rapid.Bool().Draw(t, "oldPacketsStayInFlight")
 		}
 		c.Direct = rapid.Bool().Draw(t, "direct")
 		r := runC07(c)
@@ -354,6 +371,101 @@ func TestC07Converge(t *testing.T) {
 			t.Fatalf("%s\ncase: %v\ntrace: %s\nreplay: %s", r.problem, c, strings.Join(r.trace, "; "), p)
 		}
 	})
+}
+
+// TestC07RestartPoints enumerates the moments at which the peer can be replaced during and right after a handshake,
+// with the old instance's packets still in the network.
+func TestC07RestartPoints(t *testing.T) {
+	const sub = "C07.restart_points"
+	tail := 1
+	if ev.Thorough() {
+		tail = 3
+	}
+	ev.Rule(sub, fmt.Sprintf("exhaustive: first sender in {A, B, AB} x k = 0..5 in-order deliveries x restart of B (fresh channel, same key, with something to send) with the old instance's undelivered packets vanishing or staying in flight x every sequence of up to %d further decisions {deliver held message 0..2} (old RespHello / RespDone / data reaching the survivor after the restart, the new instance's hello before or after them); then the wire is reliable; synchronous delivery, backoff 40 ms. Oracle as converge_after_faults (instances of the recorded finding restart-while-initiator-awaits-RespDone are counted, not judged). non-trivial = an old instance's packet delivered after the restart; every path distinct", tail))
+	var jobs []c07case
+	var rec func(base c07case, depth int)
+	rec = func(base c07case, depth int) {
+		jobs = append(jobs, base)
+		if depth == 0 {
+			return
+		}
+		for i := 0; i < 3; i++ {
+			c := base
+			c.Prefix = append(append([]decision{}, base.Prefix...), decision{Act: "deliver", Idx: i})
+			rec(c, depth-1)
+		}
+	}
+	for _, first := range []string{"A", "B", "AB"} {
+		for k := 0; k <= 5; k++ {
+			for _, keep := range []bool{false, true} {
+				c := c07case{First: first, Backoff: 40, Restart: k, Direct: true, KeepInFlight: keep}
+				for i := 0; i < k; i++ {
+					c.Prefix = append(c.Prefix, decision{Act: "deliver", Idx: 0})
+				}
+				rec(c, tail)
+			}
+		}
+	}
+	var mu sync.Mutex
+	var firstProblem string
+	var firstCase c07case
+	var total, nontriv, known int64
+	sem := make(chan struct{}, 12)
+	var wg sync.WaitGroup
+	for _, c := range jobs {
+		c := c
+		wg.Add(1)
+		go func() {
+			defer wg.Done()
+			sem <- struct{}{}
+			defer func() { <-sem }()
+			mu.Lock()
+			stop := firstProblem != ""
+			mu.Unlock()
+			if stop {
+				return
+			}
+			r := runC07(c)
+			atomic.AddInt64(&total, 1)
+			oldAfter := false
+			seenRestart := false
+			for _, tr := range r.trace {
+				if tr == "restart B" {
+					seenRestart = true
+				} else if seenRestart && strings.HasPrefix(tr, "deliver B:") && c.KeepInFlight {
+					oldAfter = true
+				}
+			}
+			if oldAfter {
+				atomic.AddInt64(&nontriv, 1)
+				if ev.WantSample(sub) {
+					ev.Sample(sub, c.String()+" :: "+strings.Join(r.trace, "; "))
+				}
+			}
+			if r.problem != "" {
+				if r.knownKey != "" && ev.Known(sub, "C07", r.knownKey) {
+					atomic.AddInt64(&known, 1)
+					return
+				}
+				mu.Lock()
+				if firstProblem == "" {
+					firstProblem, firstCase = r.problem+"\ntrace: "+strings.Join(r.trace, "; "), c
+				}
+				mu.Unlock()
+			}
+		}()
+	}
+	wg.Wait()
+	ev.EvalN(sub, total)
+	ev.Extra(sub, "distinct_nontrivial_counted", nontriv)
+	if known > 0 {
+		ev.ClassN(sub, "known-finding:restart-while-initiator-awaits-RespDone", known)
+	}
+	if firstProblem != "" {
+		p := ev.SaveReplay("C07.converge_after_faults", firstCase)
+		t.Fatalf("%s\ncase: %v\nreplay: %s", firstProblem, firstCase, p)
+	}
+	ev.Exhaustive(sub, fmt.Sprintf("%d restart histories", total))
 }
 
 // TestC07PrefixTree enumerates the decision tree of adversarial prefixes.
